@@ -14,7 +14,7 @@ import time
 
 ROOT = os.path.dirname(os.path.dirname(os.path.abspath(__file__)))
 REPO = os.environ.get("VERIF_REPO", "/repo")
-BUILD = os.path.join(ROOT, ".build")
+BUILD = os.environ.get("VERIF_BUILD", os.path.join(ROOT, ".build"))   # (VERIF_REPO / VERIF_BUILD: judge another checkout, e.g. one with a seeded change, without touching /repo)
 SPECS = os.path.join(ROOT, "specs")
 HARNESS = os.path.join(ROOT, "harness")
 REPLAYS = os.path.join(ROOT, "replays")
